@@ -5,7 +5,7 @@ from __future__ import annotations
 import ast
 from typing import Dict, List, Set, Tuple
 
-from ..astutil import calls_in, dotted, name_stores, unparse, walk_local, walk_stmts
+from ..astutil import ancestors, block_of, calls_in, dotted, guard_atoms, lexical_guards, name_stores, test_atoms, unparse, walk_local, walk_stmts
 from ..cfg import no_exc
 from ..report import Registry, sub
 from ._helpers_rules_d import call_nodes, callee_is, guard_atom_set, kw, qualname
@@ -301,6 +301,566 @@ def r5(ctx):
     direct = [r for r in rets if g.node(r).stmt.value.id in inst_local and g.witness([g.entry], [r], avoid=refresh) is not None]
     ctx.check(exp_ok and bool(direct), f"{gf.key}:refresh-only-when-expired",
               "get_from_identity emits SQL for a non-expired identity hit (or never returns the hit directly)", "returns the hit; _load_expired only under state.expired", gf.loc)
+
+
+# ---------------------------------------------------------------------- C34-R6: entries leave under the key they were filed with
+# The identity map finds a state's entry through `state.key` (safe_discard / discard / replace / add all read it).
+# So every write of a state's key is ordered against the map operations on that state.
+KEY_DISCARDS = ("safe_discard", "discard", "_fast_discard")
+KEY_REGISTERS = ("replace", "add", "_add_unpresent")
+# modules whose `<x>.key = ...` stores are on Column / MapperProperty / registry objects, never on an InstanceState
+NOT_STATE_KEYS = {
+    "orm/decl_base.py": "Column.key during the declarative scan",
+    "orm/properties.py": "Column.key during the declarative scan",
+    "orm/mapper.py": "Column.key / MapperProperty.key during configuration",
+    "orm/decl_api.py": "declarative attribute keys",
+    "orm/clsregistry.py": "registry entries",
+}
+# key stores on states that are not registered anywhere, justified by the CALLER (not visible in the function itself)
+UNREGISTERED_BY_CALLER = {
+    "orm/bulk_persistence.py::_bulk_insert": "Session._bulk_save_objects routes only states without a key to _bulk_insert (it groups on "
+                                             "`state.key is not None`) and bulk operations never touch the identity map",
+}
+
+
+def _functions(tree):
+    return [n for n in ast.walk(tree) if isinstance(n, (ast.FunctionDef, ast.AsyncFunctionDef))]
+
+
+def _key_writes(fn) -> Dict[str, List[Tuple[ast.stmt, str]]]:
+    """{state variable: [(statement, 'store' | 'remove')]} for `<name>.key = v` / `del <name>.key` in fn's own scope."""
+    out: Dict[str, List[Tuple[ast.stmt, str]]] = {}
+    for st in walk_stmts(fn.body):
+        if isinstance(st, ast.Assign):
+            kind = "remove" if (isinstance(st.value, ast.Constant) and st.value.value is None) else "store"
+            tg = st.targets
+        elif isinstance(st, ast.Delete):
+            kind, tg = "remove", st.targets
+        else:
+            continue
+        for t in tg:
+            if isinstance(t, ast.Attribute) and t.attr == "key" and isinstance(t.value, ast.Name) and t.value.id not in ("self", "cls"):
+                out.setdefault(t.value.id, []).append((st, kind))
+    return out
+
+
+def _imap_aliases(fn) -> Set[str]:
+    return {n for n, v, st in name_stores(fn) if v is not None and (dotted(v) or "").endswith("identity_map")}
+
+
+def _is_imap_recv(recv, imaps) -> bool:
+    return (dotted(recv) or "").endswith("identity_map") or (isinstance(recv, ast.Name) and recv.id in imaps)
+
+
+def _imap_op(c: ast.Call, methods, var: str, imaps) -> bool:
+    return (isinstance(c.func, ast.Attribute) and c.func.attr in methods and _is_imap_recv(c.func.value, imaps)
+            and len(c.args) >= 1 and isinstance(c.args[0], ast.Name) and c.args[0].id == var)
+
+
+def _mentions(arg, var: str) -> bool:
+    """`var` itself or a list/tuple/set display (possibly `[var] + more`) that contains it."""
+    if isinstance(arg, ast.Name):
+        return arg.id == var
+    if isinstance(arg, (ast.List, ast.Tuple, ast.Set)):
+        return any(_mentions(e, var) for e in arg.elts)
+    if isinstance(arg, ast.BinOp) and isinstance(arg.op, ast.Add):
+        return _mentions(arg.left, var) or _mentions(arg.right, var)
+    return False
+
+
+def _state_helpers(ctx):
+    """One level of helper summaries, read off orm/session.py: {function name: (positional index of the parameter (self
+    excluded) whose state(s) the function discards from / registers in the identity map)}.  A parameter counts when the map
+    operation is applied to it or to the loop variable of a `for` over it."""
+    m = ctx.index.module(SESSION)
+    disc: Dict[str, Set[int]] = {}
+    reg: Dict[str, Set[int]] = {}
+    seen: Dict[str, int] = {}
+    for f in ctx.index.all_functions(m):
+        if f.type_only:
+            continue
+        seen[f.name] = seen.get(f.name, 0) + 1
+        params = [p for p in f.params if p not in ("self", "cls")]
+        imaps = _imap_aliases(f.node)
+        over: Dict[str, str] = {}  # loop variable -> parameter iterated
+        for n in walk_local(f.node):
+            if isinstance(n, ast.For) and isinstance(n.target, ast.Name) and isinstance(n.iter, ast.Name) and n.iter.id in params:
+                over[n.target.id] = n.iter.id
+        for c in calls_in(f.node):
+            for methods, table in ((KEY_DISCARDS, disc), (KEY_REGISTERS, reg)):
+                if isinstance(c.func, ast.Attribute) and c.func.attr in methods and _is_imap_recv(c.func.value, imaps) and c.args and isinstance(c.args[0], ast.Name):
+                    a = over.get(c.args[0].id, c.args[0].id)
+                    if a in params:
+                        table.setdefault(f.name, set()).add(params.index(a))
+    amb = {n for n, k in seen.items() if k > 1}
+    return ({n: v for n, v in disc.items() if n not in amb}, {n: v for n, v in reg.items() if n not in amb})
+
+
+def _helper_op(c: ast.Call, table, var: str) -> bool:
+    nm = c.func.attr if isinstance(c.func, ast.Attribute) else (c.func.id if isinstance(c.func, ast.Name) else None)
+    if nm not in table:
+        return False
+    return any(i < len(c.args) and _mentions(c.args[i], var) for i in table[nm])
+
+
+def _constructed_here(pm, st: ast.stmt, var: str) -> bool:
+    """`var = instance_state(obj)` with `obj = <...>.new_instance()` earlier in the statement list that contains `st`."""
+    par, fld, blk = block_of(pm, st)
+    if not blk:
+        return False
+    objs, ok = set(), False
+    for s_ in blk:
+        if s_ is st:
+            break
+        if isinstance(s_, ast.Assign) and len(s_.targets) == 1 and isinstance(s_.targets[0], ast.Name) and isinstance(s_.value, ast.Call):
+            if callee_is(s_.value, "new_instance"):
+                objs.add(s_.targets[0].id)
+            elif s_.targets[0].id == var:
+                ok = callee_is(s_.value, "instance_state") and len(s_.value.args) == 1 and isinstance(s_.value.args[0], ast.Name) and s_.value.args[0].id in objs
+    return ok
+
+
+def _pass_bounds(g, pm, fn, st):
+    """(start nodes, loop-head nodes) delimiting one pass of the innermost loop around `st` (entry when there is none)."""
+    for a in ancestors(pm, st):
+        if a is fn:
+            break
+        if isinstance(a, (ast.For, ast.While)):
+            heads = g.nodes_for(a)
+            return (heads or [g.entry]), heads
+    return [g.entry], []
+
+
+def _no_session_edges(g, fn, var: str):
+    """Edge filter that forbids the outcome `the state has no session` of tests on a local bound from `_state_session(var)`."""
+    sess = {n for n, v, st in name_stores(fn) if isinstance(v, ast.Call) and callee_is(v, "_state_session") and v.args and _mentions(v.args[0], var)}
+    tests = {n.id for n in g.nodes if n.kind == "test" and isinstance(n.stmt.test, ast.Name) and n.stmt.test.id in sess}
+    return (lambda a, b, lab: not (a in tests and lab == "false")), bool(tests)
+
+
+def _removal_enabled_by(g, N, params) -> List[str]:
+    """Parameters of the function whose truth dominates node N (e.g. to_transient)."""
+    return sorted({a for a, pol in guard_atom_set(g, N) if pol and a in params})
+
+
+def _callers_discard_first(ctx, fname: str, fparams: List[str], coll_param: str, flags: List[str], disc_tbl):
+    """For a function that removes the key of the states in `coll_param` only when `flags` are true: every call site in
+    orm/ that can pass a true flag must come after the states it passes were discarded from the identity map."""
+    problems, n_sites = [], 0
+    pos = [p for p in fparams if p not in ("self", "cls")]
+    for m in ctx.index.all_modules():
+        if not m.relpath.startswith("orm/") or fname not in m.source:
+            continue
+        pm = None
+        for caller in _functions(m.tree):
+            for c in calls_in(caller):
+                nm = c.func.attr if isinstance(c.func, ast.Attribute) else (c.func.id if isinstance(c.func, ast.Name) else None)
+                if nm != fname:
+                    continue
+                n_sites += 1
+                can_enable = False
+                for fl in flags:
+                    v = kw(c, fl)
+                    if v is None and fl in pos and pos.index(fl) < len(c.args):
+                        v = c.args[pos.index(fl)]
+                    if v is not None and not (isinstance(v, ast.Constant) and not v.value):
+                        can_enable = True
+                if not can_enable:
+                    continue
+                arg = c.args[pos.index(coll_param)] if pos.index(coll_param) < len(c.args) else kw(c, coll_param)
+                g = ctx.cfg(caller)
+                imaps = _imap_aliases(caller)
+                site = [n for n in call_nodes(g, lambda x: x is c)]
+                before = []
+                if isinstance(arg, ast.Name):
+                    for loop in [n for n in walk_local(caller) if isinstance(n, ast.For) and isinstance(n.target, ast.Name) and isinstance(n.iter, ast.Name) and n.iter.id == arg.id]:
+                        if any(_imap_op(x, KEY_DISCARDS, loop.target.id, imaps) or _helper_op(x, disc_tbl, loop.target.id) for x in calls_in(loop)):
+                            before.extend(g.nodes_for(loop))
+                    before.extend(call_nodes(g, lambda x: _helper_op(x, disc_tbl, arg.id)))
+                bad = [s_ for s_ in site if not before or g.always_preceded(s_, before) is not None]
+                if bad or not site:
+                    problems.append(f"{m.relpath}::{qualname(m.parents() if pm is None else pm, c)} calls {fname}({unparse(arg) if arg is not None else '?'}, {'/'.join(flags)}=...) "
+                                    f"without first discarding those states from the identity map")
+    return problems, n_sites
+
+
+@R.rule("C34-R6", floor=9, template="T-PATH",
+        desc="the identity map files and finds a state under state.key, so an entry is removed under the key it was "
+             "registered with: in every function of orm/ that writes a state's key, a store on a possibly registered state "
+             "is preceded (within one loop pass) by the discard of that state and followed by its re-registration, no "
+             "discard runs after the store, and a key is only removed from a state that was taken out of the map first "
+             "(one level of Session helpers and the callers of a flag-guarded removal are followed)")
+def r6(ctx):
+    disc_tbl, reg_tbl = _state_helpers(ctx)
+    ctx.require("_expunge_states" in disc_tbl, "Session._expunge_states is no longer recognised as discarding its states from the identity map")
+    n_inst = 0
+    for m in ctx.index.all_modules():
+        if not m.relpath.startswith("orm/") or m.relpath in NOT_STATE_KEYS or ".key" not in m.source:
+            continue
+        pm = None
+        for fn in _functions(m.tree):
+            writes = _key_writes(fn)
+            if not writes:
+                continue
+            if pm is None:
+                pm = m.parents()
+            q = qualname(pm, fn)
+            fkey = f"{m.relpath}::{q + '.' if q else ''}{fn.name}"
+            ctx.functions_analysed.add(fkey)
+            g = ctx.cfg(fn)
+            imaps = _imap_aliases(fn)
+            params = [a.arg for a in fn.args.posonlyargs + fn.args.args + fn.args.kwonlyargs]
+            for var, sts in sorted(writes.items()):
+                disc = call_nodes(g, lambda c: _imap_op(c, KEY_DISCARDS, var, imaps) or _helper_op(c, disc_tbl, var))
+                reg = call_nodes(g, lambda c: _imap_op(c, KEY_REGISTERS, var, imaps) or _helper_op(c, reg_tbl, var))
+                problems, wit, notes = [], None, []
+                for st, kind in sts:
+                    starts, heads = _pass_bounds(g, pm, fn, st)
+                    for N in g.nodes_for(st):
+                        atoms = guard_atom_set(g, N)
+                        if kind == "store":
+                            fresh = (f"{var}.key is None", True) in atoms or (f"{var}.key", False) in atoms or _constructed_here(pm, st, var)
+                            if fresh:
+                                notes.append(f"`{unparse(st)}`: first key of a state that is not registered yet")
+                            elif fkey in UNREGISTERED_BY_CALLER:
+                                notes.append(f"`{unparse(st)}`: {UNREGISTERED_BY_CALLER[fkey]}")
+                            else:
+                                w = g.witness(starts, [N], avoid=disc)
+                                if w is not None or not disc:
+                                    problems.append(f"`{unparse(st)}` re-keys a state that may be registered in the identity map without discarding it first: "
+                                                    f"the entry filed under the previous key is never removed (one object under two identity keys)")
+                                    wit = wit or (g.describe_path(w) if w else None)
+                                if disc and reg and g.witness([N], reg, avoid=heads) is None:
+                                    problems.append(f"after `{unparse(st)}` the state is not registered again under its new key")
+                                if disc and not reg:
+                                    problems.append(f"`{var}` is discarded and re-keyed by `{unparse(st)}` but never registered again")
+                                w = g.witness(reg, [N], avoid=list(heads) + list(disc))
+                                if w is not None:
+                                    problems.append(f"`{var}` is registered before `{unparse(st)}` without a discard in between: it stays filed under the previous key")
+                                    wit = wit or g.describe_path(w)
+                            w = g.witness([N], disc, avoid=heads)
+                            if w is not None and not fresh:
+                                problems.append(f"the identity map discards `{var}` after `{unparse(st)}`: the lookup uses the NEW key, so the entry under the key "
+                                                f"the state was registered with stays in the map")
+                                wit = wit or g.describe_path(w)
+                        else:
+                            edge_ok, has_sess = _no_session_edges(g, fn, var)
+                            w = g.witness(starts, [N], avoid=disc, edge_ok=edge_ok) if disc else [N]
+                            if w is None:
+                                notes.append(f"`{unparse(st)}` after the state left the identity map" + (" (or has no session)" if has_sess else ""))
+                                continue
+                            # not taken out of the map here: the states must come from a parameter whose callers did it
+                            src = var if var in params else None
+                            for a in ancestors(pm, st):
+                                if isinstance(a, ast.For) and isinstance(a.target, ast.Name) and a.target.id == var and isinstance(a.iter, ast.Name) and a.iter.id in params:
+                                    src = a.iter.id
+                            flags = [p_ for p_ in _removal_enabled_by(g, N, params) if p_ != src]
+                            if src is None or not flags or imaps or disc:
+                                problems.append(f"`{unparse(st)}` removes the key of a state that may still be registered in the identity map (the entry can no longer be "
+                                                f"found through state.key)")
+                                wit = wit or (g.describe_path(w) if disc else None)
+                                continue
+                            cp, n_sites = _callers_discard_first(ctx, fn.name, params, src, flags, disc_tbl)
+                            ctx.require(n_sites >= 1, f"{fkey}: no call site of {fn.name} found in orm/")
+                            problems.extend(cp)
+                            notes.append(f"`{unparse(st)}` only under `{'/'.join(flags)}`; the {n_sites} call sites pass it only after discarding the states")
+                n_inst += 1
+                uniq = []
+                for p_ in problems:
+                    if p_ not in uniq:
+                        uniq.append(p_)
+                ctx.check(not uniq, f"{fkey}:key-write[{var}]", "; ".join(uniq), "; ".join(dict.fromkeys(notes)) or "discard < key store < register", f"{m.path}:{fn.lineno}", wit)
+    ctx.require(n_inst >= 1, "no function of orm/ writes the key of a state")
+
+
+# ---------------------------------------------------------------------- C34-R7 / R8: the identity token travels with the primary key
+TOKEN = "identity_token"
+# callee names shared with unrelated APIs (dict.get ...): counted as a token-accepting call only on these receivers
+AMBIGUOUS_CALLEES = {"get"}
+SESSION_LIKE_RECEIVERS = ("self", "super()", "session", "_proxied", "sync_session", "sess")
+
+
+def _acceptors(ctx) -> Dict[str, list]:
+    """{function name: [FuncInfo]}: every function of the library that has a parameter named identity_token."""
+    out: Dict[str, list] = {}
+    for m in ctx.index.all_modules():
+        if TOKEN not in m.source:
+            continue
+        for f in ctx.index.all_functions(m):
+            if TOKEN in f.params and not f.type_only and not f.is_overload:
+                out.setdefault(f.name, []).append(f)
+    return out
+
+
+def _callee_name(c: ast.Call):
+    return c.func.attr if isinstance(c.func, ast.Attribute) else (c.func.id if isinstance(c.func, ast.Name) else None)
+
+
+def _accepting_call(c: ast.Call, acc) -> bool:
+    nm = _callee_name(c)
+    if nm not in acc:
+        return False
+    if nm in AMBIGUOUS_CALLEES:
+        recv = dotted(c.func.value) if isinstance(c.func, ast.Attribute) else None
+        return recv is not None and recv.rsplit(".", 1)[-1] in SESSION_LIKE_RECEIVERS
+    return True
+
+
+def _token_arg(c: ast.Call, acc):
+    """The expression a call passes as identity token (keyword, or the positional slot of the unique callee signature)."""
+    v = kw(c, TOKEN)
+    if v is not None:
+        return v
+    sigs = {tuple(p for p in f.params if p not in ("self", "cls")) for f in acc.get(_callee_name(c), [])}
+    if len(sigs) == 1:
+        sig = next(iter(sigs))
+        i = sig.index(TOKEN)
+        if i < len(c.args) and not any(isinstance(a, ast.Starred) for a in c.args[: i + 1]):
+            return c.args[i]
+    return None
+
+
+def _reads(expr, names: Set[str]) -> bool:
+    return any(isinstance(n, ast.Name) and n.id in names for n in ast.walk(expr))
+
+
+def _is_const_index(n, i: int) -> bool:
+    return isinstance(n, ast.Subscript) and isinstance(n.slice, ast.Constant) and n.slice.value == i
+
+
+@R.rule("C34-R7", floor=24, template="T-FLOW",
+        desc="an identity key is (class, primary key, identity token) and every load-by-identity uses all of it: a function "
+             "that accepts an identity_token hands it on (to the identity_token slot of a call, into the key tuple or the "
+             "load options) and passes a token to every token-accepting callee; a call that receives component [1] of an "
+             "identity key receives component [2] of the SAME key as its identity_token")
+def r7(ctx):
+    acc = _acceptors(ctx)
+    ctx.require(len(acc) >= 8, f"only {sorted(acc)} accept an identity_token")
+    # (b) forwarders: the parameter is not dropped
+    for name, fs in sorted(acc.items()):
+        for f in fs:
+            ctx.functions_analysed.add(f.key)
+            tok = {TOKEN} | {n for n, v, st in name_stores(f.node) if isinstance(v, ast.Name) and v.id == TOKEN}
+            sinks, bare = [], []
+            for n in walk_local(f.node):
+                if isinstance(n, ast.Call):
+                    for k in n.keywords:
+                        if k.arg == TOKEN and _reads(k.value, tok):
+                            sinks.append(f"{unparse(n.func)}({TOKEN}=...)")
+                    if _accepting_call(n, acc):
+                        t = _token_arg(n, acc)
+                        if t is None and not any(k.arg is None for k in n.keywords):
+                            bare.append(f"{unparse(n.func)}(...) at line {n.lineno}")
+                        elif t is not None and kw(n, TOKEN) is None and _reads(t, tok):
+                            sinks.append(f"{unparse(n.func)}(..., {unparse(t)})")
+                elif isinstance(n, ast.Tuple) and isinstance(n.ctx, ast.Load) and any(isinstance(e, ast.Name) and e.id in tok for e in n.elts):
+                    sinks.append("identity key tuple")
+                elif isinstance(n, ast.Assign) and any(isinstance(t, ast.Subscript) for t in n.targets) and isinstance(n.value, ast.Name) and n.value.id in tok:
+                    sinks.append(f"{unparse(n.targets[0])} = ...")
+                elif isinstance(n, ast.Dict) and any(isinstance(v, ast.Name) and v.id in tok for v in n.values if v is not None):
+                    sinks.append("options dict")
+            # a forwarding-style call (>= 2 of this function's parameters passed on by keyword under their own names) that is given
+            # something a token-carrying sibling call also gets (the primary key, the mapper ...) but no token
+            carrying = [c for c in walk_local(f.node) if isinstance(c, ast.Call) and (t_ := kw(c, TOKEN)) is not None and _reads(t_, tok)]
+            companions = {a.id for c in carrying for a in list(c.args) + [k.value for k in c.keywords if k.arg != TOKEN]
+                          if isinstance(a, ast.Name) and a.id not in ("self", "cls") and a.id not in tok}
+            for c in walk_local(f.node):
+                if not isinstance(c, ast.Call) or kw(c, TOKEN) is not None or any(k.arg is None for k in c.keywords):
+                    continue
+                own = sum(1 for k in c.keywords if isinstance(k.value, ast.Name) and k.arg == k.value.id and k.arg in f.params)
+                given = {a.id for a in list(c.args) + [k.value for k in c.keywords] if isinstance(a, ast.Name)}
+                if own >= 2 and given & companions and not _accepting_call(c, acc):
+                    if (f"{TOKEN} is None", True) in set(guard_atoms(lexical_guards(f.module.parents(), c, stop=f.node))):
+                        continue  # the branch that runs when no token was given
+                    bare.append(f"{unparse(c.func)}(...) at line {c.lineno} (forwards {sorted(given & companions)} like its token-carrying sibling call, but no token)")
+            msg = []
+            if not sinks:
+                msg.append(f"the {TOKEN} parameter is accepted but never handed on: loads issued from here use the key (class, pk, None)")
+            if bare:
+                msg.append(f"token-accepting callee(s) called without an identity token: {bare}")
+            ctx.check(not msg, f"{f.key}:token-forwarded", "; ".join(msg), f"handed on via {sorted(set(sinks))}", f.loc)
+    # (a) unpack sites: K[1] and K[2] of the same key travel together
+    n_sites = 0
+    for m in ctx.index.all_modules():
+        if not (m.relpath.startswith("orm/") or m.relpath.startswith("ext/")) or "[1]" not in m.source:
+            continue
+        pm = None
+        for fn in _functions(m.tree):
+            comp: Dict[str, Tuple[str, int]] = {}  # local -> (key expression text, component)
+            for n, v, st in name_stores(fn):
+                for i in (1, 2):
+                    if v is not None and _is_const_index(v, i):
+                        comp[n] = (unparse(v.value), i)
+            for c in calls_in(fn):
+                if not _accepting_call(c, acc):
+                    continue
+                bases = []
+                for a in list(c.args) + [k.value for k in c.keywords if k.arg != TOKEN]:
+                    if _is_const_index(a, 1):
+                        bases.append(unparse(a.value))
+                    elif isinstance(a, ast.Name) and comp.get(a.id, ("", 0))[1] == 1:
+                        bases.append(comp[a.id][0])
+                if not bases:
+                    continue
+                if pm is None:
+                    pm = m.parents()
+                n_sites += 1
+                q = qualname(pm, fn)
+                fkey = f"{m.relpath}::{q + '.' if q else ''}{fn.name}"
+                ctx.functions_analysed.add(fkey)
+                t = _token_arg(c, acc)
+                if t is None:
+                    got = None
+                elif _is_const_index(t, 2):
+                    got = unparse(t.value)
+                elif isinstance(t, ast.Name) and comp.get(t.id, ("", 0))[1] == 2:
+                    got = comp[t.id][0]
+                else:
+                    got = f"<{unparse(t)}>"
+                ctx.check(got in bases, f"{fkey}:{_callee_name(c)}:key-components-together",
+                          f"`{unparse(c.func)}` is given the primary key of identity key `{bases[0]}` (component [1]) but "
+                          + ("no identity_token at all" if got is None else f"the identity token {got}")
+                          + f": the load uses the key (class, pk, None) instead of `{bases[0]}`, so the object is registered under another identity key and "
+                            f"a second object for the same row can be loaded",
+                          f"{bases[0]}[1] and {bases[0]}[2] are passed together", f"{m.path}:{c.lineno}")
+    ctx.require(n_sites >= 2, f"only {n_sites} call(s) pass the [1] component of an identity key to a token-accepting loader")
+
+
+@R.rule("C34-R8", floor=3, template="T-GUARD",
+        desc="`None` is the only 'no identity token' value (it is the parameter default and the third key component of "
+             "token-less objects): a function that accepts an identity_token tests it only with `is None` / `is not None`, "
+             "never by truthiness (a falsy token such as 0 would silently become 'no token')")
+def r8(ctx):
+    acc = _acceptors(ctx)
+    n = 0
+    for name, fs in sorted(acc.items()):
+        for f in fs:
+            truthy, none_tests = [], 0
+            for x in walk_local(f.node):
+                tests = []
+                if isinstance(x, (ast.If, ast.While, ast.IfExp)):
+                    tests.append(x.test)
+                elif isinstance(x, ast.Assert):
+                    tests.append(x.test)
+                elif isinstance(x, ast.comprehension):
+                    tests.extend(x.ifs)
+                elif isinstance(x, ast.BoolOp):
+                    tests.extend(v for v in x.values if isinstance(v, ast.Name))
+                elif isinstance(x, ast.UnaryOp) and isinstance(x.op, ast.Not):
+                    tests.append(x.operand)
+                for t in tests:
+                    for a, pol in test_atoms(t, True):
+                        if a == TOKEN:
+                            truthy.append(getattr(t, "lineno", f.node.lineno))
+                        elif a == f"{TOKEN} is None":
+                            none_tests += 1
+            if not truthy and not none_tests:
+                continue
+            n += 1
+            ctx.functions_analysed.add(f.key)
+            ctx.check(not truthy, f"{f.key}:token-tested-against-None",
+                      f"the identity token is tested by truthiness (line(s) {sorted(set(truthy))}): a falsy token (0, '') is treated as 'no token' and the "
+                      f"object is loaded / looked up under (class, pk, None) instead of (class, pk, token)",
+                      f"{none_tests} test(s), all against None", f.loc)
+    ctx.require(n >= 1, "no function tests its identity_token parameter")
+
+
+# ---------------------------------------------------------------------- C34-R9: only attached states are registered
+# registration sites whose states are attached for a reason outside the function
+ATTACHED_BY_CALLER = {
+    "orm/session.py::Session._register_persistent": "called by UOWTransaction.finalize_flush_changes with the states of this flush, which "
+                                                    "UOWTransaction collects from this session's _new / dirty identity map",
+}
+
+
+def _attach_evidence(ctx, g, fn, N, var: str) -> str:
+    """Why the state `var` registered at CFG node N belongs to this session ('' when nothing shows it)."""
+    pre = call_nodes(g, lambda c: callee_is(c, "_before_attach") and c.args and _mentions(c.args[0], var))
+    if pre and g.always_preceded(N, pre) is None:
+        return "after self._before_attach(state, ...)"
+    st = [n.id for n in g.nodes if n.kind == "stmt" and isinstance(n.stmt, ast.Assign)
+          and any(isinstance(t, ast.Attribute) and t.attr == "session_id" and dotted(t.value) == var for t in n.stmt.targets)
+          and not (isinstance(n.stmt.value, ast.Constant) and n.stmt.value.value is None)]
+    if st and g.always_preceded(N, st) is None:
+        return "after state.session_id is set"
+    for a, pol in guard_atom_set(g, N):
+        if pol and (a == f"{var}._attached" or a.startswith(f"{var}.session_id ==") or a.startswith(f"{var}.session_id is ")):
+            return f"guarded by `{a}`"
+    return ""
+
+
+def _bookkeeping_source(pm, fn, N_stmt, var: str):
+    """Name of the transaction bookkeeping map (`self.<M>`) whose iteration binds `var`, if any."""
+    for a in ancestors(pm, N_stmt):
+        if a is fn:
+            break
+        if isinstance(a, ast.For):
+            tnames = {x.id for x in ast.walk(a.target) if isinstance(x, ast.Name)}
+            if var in tnames:
+                for x in ast.walk(a.iter):
+                    if isinstance(x, ast.Attribute) and dotted(x.value) == "self" and x.attr.startswith("_"):
+                        return x.attr
+    return None
+
+
+@R.rule("C34-R9", floor=5, template="T-GUARD",
+        desc="a state is registered in a session's identity map only while it is attached to that session: every "
+             "add/replace/_add_unpresent outside orm/identity.py follows the attach protocol for that state "
+             "(_before_attach, or session_id set beside it), or is guarded by the state's attachment, or takes its states "
+             "from bookkeeping that Session._expunge_states prunes when a state leaves")
+def r9(ctx):
+    exp = ctx.func(f"{SESSION}::Session._expunge_states")
+    pruned = set()
+    for c in calls_in(exp.node):
+        if isinstance(c.func, ast.Attribute) and c.func.attr in ("pop", "discard", "remove", "__delitem__") and isinstance(c.func.value, ast.Attribute):
+            pruned.add((dotted(c.func.value.value) or "", c.func.value.attr))
+    for n in walk_local(exp.node):
+        if isinstance(n, ast.Delete):
+            for t in n.targets:
+                if isinstance(t, ast.Subscript) and isinstance(t.value, ast.Attribute):
+                    pruned.add((dotted(t.value.value) or "", t.value.attr))
+    tx_pruned = {attr for recv, attr in pruned if recv.endswith("_transaction")}
+    n_inst = 0
+    for m in ctx.index.all_modules():
+        if not m.relpath.startswith("orm/") or m.relpath == IDENT or "identity_map" not in m.source:
+            continue
+        pm = m.parents()
+        for fn in _functions(m.tree):
+            imaps = _imap_aliases(fn)
+            sites = [c for c in calls_in(fn) if isinstance(c.func, ast.Attribute) and c.func.attr in KEY_REGISTERS and _is_imap_recv(c.func.value, imaps)
+                     and c.args and isinstance(c.args[0], ast.Name)]
+            if not sites:
+                continue
+            q = qualname(pm, fn)
+            fkey = f"{m.relpath}::{q + '.' if q else ''}{fn.name}"
+            ctx.functions_analysed.add(fkey)
+            g = ctx.cfg(fn)
+            by_var: Dict[str, list] = {}
+            for c in sites:
+                by_var.setdefault(c.args[0].id, []).append(c)
+            for var, cs in sorted(by_var.items()):
+                why, bad = [], []
+                for c in cs:
+                    for N in call_nodes(g, lambda x: x is c):
+                        ev_ = _attach_evidence(ctx, g, fn, N, var)
+                        if not ev_ and fkey in ATTACHED_BY_CALLER:
+                            ev_ = ATTACHED_BY_CALLER[fkey]
+                        if not ev_:
+                            src = _bookkeeping_source(pm, fn, g.node(N).stmt, var)
+                            if src is not None and src in tx_pruned:
+                                ev_ = f"states come from self.{src}, which Session._expunge_states prunes"
+                            elif src is not None:
+                                bad.append(f"`{unparse(c)}` registers states taken from the transaction's `{src}` bookkeeping, which keeps states that were "
+                                           f"expunged in the meantime (Session._expunge_states prunes only {sorted(tx_pruned)} of the transaction); nothing tests "
+                                           f"that `{var}` is still attached: a detached object (possibly attached to another session) is put back into this identity map")
+                                continue
+                        if not ev_:
+                            bad.append(f"`{unparse(c)}` registers `{var}` without the attach protocol or a test of its attachment")
+                        else:
+                            why.append(ev_)
+                n_inst += 1
+                ctx.check(not bad, f"{fkey}:registers-attached[{var}]", "; ".join(dict.fromkeys(bad)), "; ".join(dict.fromkeys(why)), f"{m.path}:{cs[0].lineno}")
+    ctx.require(n_inst >= 1, "no identity-map registration site found outside orm/identity.py")
 
 
 # ---------------------------------------------------------------------- self-test battery
